@@ -366,16 +366,16 @@ macro_rules! build1_store {
                             Err(_) => return na_built(),
                         };
                         built(
-                            catch_unwind(AssertUnwindSafe(|| {
+                            { let _g = crate::dynif::GuardMark::new(); catch_unwind(AssertUnwindSafe(|| {
                                 Interp1DBuilder::new(data).x(x).strategy($sb).build().map(|i| Box::new(i) as Box1<'a, T>)
-                            })),
+                            })) },
                             berr,
                         )
                     }
                     None => built(
-                        catch_unwind(AssertUnwindSafe(|| {
+                        { let _g = crate::dynif::GuardMark::new(); catch_unwind(AssertUnwindSafe(|| {
                             Interp1DBuilder::new(data).strategy($sb).build().map(|i| Box::new(i) as Box1<'a, T>)
-                        })),
+                        })) },
                         berr,
                     ),
                 }
@@ -395,15 +395,15 @@ macro_rules! build1_store {
                 if $cfg.store == Store::Owned {
                     match x {
                         Some(x) => built(
-                            catch_unwind(AssertUnwindSafe(|| {
+                            { let _g = crate::dynif::GuardMark::new(); catch_unwind(AssertUnwindSafe(|| {
                                 Interp1DBuilder::new(data).x(x).strategy($sb).build().map(|i| Box::new(i) as Box1<'a, T>)
-                            })),
+                            })) },
                             berr,
                         ),
                         None => built(
-                            catch_unwind(AssertUnwindSafe(|| {
+                            { let _g = crate::dynif::GuardMark::new(); catch_unwind(AssertUnwindSafe(|| {
                                 Interp1DBuilder::new(data).strategy($sb).build().map(|i| Box::new(i) as Box1<'a, T>)
-                            })),
+                            })) },
                             berr,
                         ),
                     }
@@ -411,19 +411,19 @@ macro_rules! build1_store {
                     let data = data.into_shared();
                     match x {
                         Some(x) => built(
-                            catch_unwind(AssertUnwindSafe(|| {
+                            { let _g = crate::dynif::GuardMark::new(); catch_unwind(AssertUnwindSafe(|| {
                                 Interp1DBuilder::new(data)
                                     .x(x.into_shared())
                                     .strategy($sb)
                                     .build()
                                     .map(|i| Box::new(i) as Box1<'a, T>)
-                            })),
+                            })) },
                             berr,
                         ),
                         None => built(
-                            catch_unwind(AssertUnwindSafe(|| {
+                            { let _g = crate::dynif::GuardMark::new(); catch_unwind(AssertUnwindSafe(|| {
                                 Interp1DBuilder::new(data).strategy($sb).build().map(|i| Box::new(i) as Box1<'a, T>)
-                            })),
+                            })) },
                             berr,
                         ),
                     }
@@ -516,10 +516,10 @@ pub fn build1<'a, T: FEl>(cfg: &Cfg1<'a, T>, strat: &Strat1<T>) -> Built<Box1<'a
 /// 1-D builder; static `Ix0` data does not satisfy the bounds of `build`)
 pub fn build1_rank0<T: El>(v: T) -> Built<()> {
     built(
-        catch_unwind(AssertUnwindSafe(|| {
+        { let _g = crate::dynif::GuardMark::new(); catch_unwind(AssertUnwindSafe(|| {
             let data = ArrayD::from_elem(IxDyn(&[]), v);
             Interp1DBuilder::new(data).build().map(|_| ())
-        })),
+        })) },
         berr,
     )
 }
@@ -538,27 +538,27 @@ macro_rules! build2_go {
         let data = $data;
         match ($x, $y) {
             (Some(x), Some(y)) => built(
-                catch_unwind(AssertUnwindSafe(|| {
+                { let _g = crate::dynif::GuardMark::new(); catch_unwind(AssertUnwindSafe(|| {
                     Interp2DBuilder::new(data).x(x).y(y).strategy($sb).build().map(|i| Box::new(i) as Box2<'a, T>)
-                })),
+                })) },
                 berr,
             ),
             (Some(x), None) => built(
-                catch_unwind(AssertUnwindSafe(|| {
+                { let _g = crate::dynif::GuardMark::new(); catch_unwind(AssertUnwindSafe(|| {
                     Interp2DBuilder::new(data).x(x).strategy($sb).build().map(|i| Box::new(i) as Box2<'a, T>)
-                })),
+                })) },
                 berr,
             ),
             (None, Some(y)) => built(
-                catch_unwind(AssertUnwindSafe(|| {
+                { let _g = crate::dynif::GuardMark::new(); catch_unwind(AssertUnwindSafe(|| {
                     Interp2DBuilder::new(data).y(y).strategy($sb).build().map(|i| Box::new(i) as Box2<'a, T>)
-                })),
+                })) },
                 berr,
             ),
             (None, None) => built(
-                catch_unwind(AssertUnwindSafe(|| {
+                { let _g = crate::dynif::GuardMark::new(); catch_unwind(AssertUnwindSafe(|| {
                     Interp2DBuilder::new(data).strategy($sb).build().map(|i| Box::new(i) as Box2<'a, T>)
-                })),
+                })) },
                 berr,
             ),
         }
@@ -649,7 +649,7 @@ pub fn build2<'a, T: El>(cfg: &Cfg2<'a, T>, strat: &Strat2) -> Built<Box2<'a, T>
 pub fn build2_lowrank<T: El>(shape: &[usize], dynamic: bool) -> Built<()> {
     let shape = shape.to_vec();
     built(
-        catch_unwind(AssertUnwindSafe(|| {
+        { let _g = crate::dynif::GuardMark::new(); catch_unwind(AssertUnwindSafe(|| {
             if dynamic {
                 let data = ArrayD::<T>::zeros(IxDyn(&shape));
                 Interp2DBuilder::new(data).build().map(|_| ())
@@ -658,7 +658,7 @@ pub fn build2_lowrank<T: El>(shape: &[usize], dynamic: bool) -> Built<()> {
                 let _b = Interp2DBuilder::new(data);
                 Ok(())
             }
-        })),
+        })) },
         berr,
     )
 }
